@@ -972,6 +972,28 @@ func (r *Rig) Restart(db dbm.DB) {
 	r.newApp(db)
 }
 
+// RestartFromExport exports the chain as it is and replaces, in place, the application behind this rig by a fresh one
+// (new database) started from that export at the next height - what an operator does who restarts a chain from its own
+// exported genesis. Everything that holds the *Rig keeps working on the new application. If the export fails or the new
+// application refuses it, the old application stays and the error is returned.
+func (r *Rig) RestartFromExport() error {
+	exp, err := r.Export(false)
+	if err != nil {
+		return fmt.Errorf("export: %w", err)
+	}
+	oldApp, oldK, oldCdc, oldTx := r.App, r.K, r.Cdc, r.TxConfig
+	oldH, oldT, oldDoc := r.Height, r.Time, r.GenesisDoc
+	r.K = Keepers{}
+	r.newApp(dbm.NewMemDB())
+	if err := r.TryInitChain(exp.AppState, exp.Height, oldT); err != nil {
+		r.App, r.K, r.Cdc, r.TxConfig = oldApp, oldK, oldCdc, oldTx
+		r.Height, r.Time, r.GenesisDoc = oldH, oldT, oldDoc
+		return fmt.Errorf("import: %w", err)
+	}
+	r.SyncSeqs()
+	return nil
+}
+
 // Export runs the application's own export.
 func (r *Rig) Export(forZeroHeight bool) (exp exported, err error) {
 	defer func() {
